@@ -46,3 +46,77 @@ Theorem C03_parse_of_rendering_with_floats : forall pf pretty ok, (forall b, ok 
   forall v, wf_shape v = true -> floats_ok ok v = true -> parse_value (render pf pretty 0 v) = Ok (unsign v).
 Proof. exact parse_rendering_floats. Qed.
 Print Assumptions C03_parse_of_rendering_with_floats.
+
+(* ---- the byte walker: RenderWalk.v re-implements to_string / to_pretty_string / container_to_string /
+   scalar_to_string / escape_scalar_string over the buffer with the code's own offsets (header word at `offset`, entry
+   words from 4 + offset, payloads from 4 + offset + 4 * length, for objects the key ranges read first; a failed read
+   is Err, an index out of bounds is Panic).  On the encoding of every well-formed value it neither fails nor panics
+   and prints exactly the text the tree renderer gives for the decoded tree, so the theorems above apply to what
+   the walker prints.  pf is the float printer (ryu), a parameter. *)
+From JB Require Import Codec DispatchProofs RenderWalk RenderWalkProofs.
+
+Theorem C03_byte_walker_renders_the_document : forall pf v, wfb v = true -> top_ok v ->
+  to_string_w' pf (enc v) = Ok (to_string_t pf (normalise v)).
+Proof. exact to_string_w_enc. Qed.
+Print Assumptions C03_byte_walker_renders_the_document.
+
+Theorem C03_byte_walker_renders_the_document_pretty : forall pf v, wfb v = true -> top_ok v ->
+  to_pretty_string_w' pf (enc v) = Ok (to_pretty_string_t pf (normalise v)).
+Proof. exact to_pretty_string_w_enc. Qed.
+Print Assumptions C03_byte_walker_renders_the_document_pretty.
+
+(* the walk itself (container_to_string(value, &mut 0, ..)), without the first-byte test of to_string: any nesting
+   depth, any top-level count *)
+Theorem C03_container_to_string_on_encodings : forall pf pretty v, wfb v = true ->
+  render_w pf (enc v) pretty = Ok (render pf pretty 0 (normalise v)).
+Proof. exact render_w_enc. Qed.
+Print Assumptions C03_container_to_string_on_encodings.
+
+(* escape_scalar_string(value, start, end) over the range a valid string occupies in any buffer: the quoted string with
+   every byte escaped as the table says (from_utf8_lossy changes nothing in valid UTF-8) *)
+Theorem C03_escape_range_of_a_valid_string : forall V A s B off, V = A ++ s ++ B -> off = lenN A -> Utf8.utf8_valid s = true ->
+  escape_range_w V off (off + lenN s) = Ok (escape_string s).
+Proof. exact escape_range_in. Qed.
+Print Assumptions C03_escape_range_of_a_valid_string.
+
+(* the loop of escape_scalar_string written with the code's own index expressions (value[i] for i in start..end,
+   &value[last_start..i] before each escaped byte, &value[last_start..end] after the loop; each out of bounds = Panic) is,
+   on EVERY buffer and EVERY range, the function the walker model uses (one slice of the range, then the pieces) *)
+Theorem C03_escape_scalar_string_index_loop : forall V start stop, escape_range_lit V start stop = escape_range_w V start stop.
+Proof. exact escape_range_lit_eq. Qed.
+Print Assumptions C03_escape_scalar_string_index_loop.
+
+(* the recursion fuel of the model (S (length V), for the element loops and for the nesting) is never the reason for
+   an answer, whatever the buffer: every nested header lies at least 4 bytes after its parent's, every loop iteration
+   reads an entry word 4 bytes further, and a read past the end ends the walk first (as it does in the code) *)
+Theorem C03_byte_walker_fuel_never_runs_out : forall pf V pretty, render_w pf V pretty <> Err EFuel.
+Proof. exact render_w_not_fuel. Qed.
+Print Assumptions C03_byte_walker_fuel_never_runs_out.
+
+(* on encodings the walker and the view-level model (decode, then render the tree) are the same function *)
+Theorem C03_byte_walker_agrees_with_view_model : forall v, wfb v = true -> top_ok v ->
+  to_string_w (enc v) = Dispatch.to_string_m (enc v) /\ to_pretty_string_w (enc v) = Dispatch.to_pretty_string_m (enc v).
+Proof. intros v Hw Ht. split; [exact (to_string_w_m_enc v Hw Ht)|exact (to_pretty_string_w_m_enc v Hw Ht)]. Qed.
+Print Assumptions C03_byte_walker_agrees_with_view_model.
+
+(* a nested instance, computed by the walker on the bytes: an object in an array in an object, a key with a quote, a
+   string with a line feed, a backslash, U+0001 and a two-byte character, a negative and an unsigned integer, null, true
+   (the expected bytes spell the compact text, key k-quote escaped, string x \n y \\ \u0001 e-acute, then -5,7,null) *)
+Definition c03_example : value :=
+  VObj [([97], VArr [VObj [([107; 34], VStr [120; 10; 121; 92; 1; 195; 169])]; VNum (NInt (-5)%Z); VNum (NUInt 7); VNull]); ([98], VBool true)].
+Example C03_byte_walker_example :
+  wfb c03_example = true /\
+  to_string_w (enc c03_example)
+  = Ok [123; 34; 97; 34; 58; 91; 123; 34; 107; 92; 34; 34; 58; 34; 120; 92; 110; 121; 92; 92; 92; 117; 48; 48; 48; 49; 195; 169; 34; 125;
+        44; 45; 53; 44; 55; 44; 110; 117; 108; 108; 93; 44; 34; 98; 34; 58; 116; 114; 117; 101; 125] /\
+  to_pretty_string_w (enc c03_example)
+  = Ok [123; 10; 32; 32; 34; 97; 34; 58; 32; 91; 10; 32; 32; 32; 32; 123; 10; 32; 32; 32; 32; 32; 32; 34; 107; 92; 34; 34; 58; 32; 34; 120;
+        92; 110; 121; 92; 92; 92; 117; 48; 48; 48; 49; 195; 169; 34; 10; 32; 32; 32; 32; 125; 44; 10; 32; 32; 32; 32; 45; 53; 44; 10; 32;
+        32; 32; 32; 55; 44; 10; 32; 32; 32; 32; 110; 117; 108; 108; 10; 32; 32; 93; 44; 10; 32; 32; 34; 98; 34; 58; 32; 116; 114; 117; 101; 10;
+        125].
+Proof. vm_compute. repeat split. Qed.
+(* on a buffer that is not an encoding the walker answers as the code does: a failed read gives the text null, an index
+   past the end panics (here: the encoding above cut after 3 bytes, and after 20 bytes, inside the key entries) *)
+Example C03_byte_walker_on_truncated_buffers :
+  to_string_w (firstn 3 (enc c03_example)) = Ok [110; 117; 108; 108] /\ to_string_w (firstn 20 (enc c03_example)) = Panic.
+Proof. vm_compute. split; reflexivity. Qed.
